@@ -1,7 +1,7 @@
 (* C11 — Cell expressions denote the Boolean function MCNP assigns to them.
    Only restatements; proofs are in C11/Proofs.v. Spec vocabulary: C11/Spec.v. *)
 From Coq Require Import List NArith ZArith Bool String Ascii Lia.
-From T4V Require Import Base.Str C11.Model C11.Spec C11.Proofs C11.LexProofs C11.LexSound C11.Layout C11.Pipeline C11.Sound C11.Complete.
+From T4V Require Import Base.Str C11.Model C11.Spec C11.Proofs C11.LexProofs C11.LexSound C11.Layout C11.Pipeline C11.Sound C11.Complete C11.Loop.
 Import ListNotations.
 Close Scope string_scope.
 Open Scope list_scope.
@@ -32,6 +32,19 @@ Theorem C11_pot_complement_den : forall cells rk, table_ok cells rk ->
     forall sg cd, cells_meaning cells sg cd -> aden cd sg t = aden cd sg a.
 Proof. exact pot_complement_sound. Qed.
 Print Assumptions C11_pot_complement_den.
+
+(* the loop the converter actually runs (ConstructVolumeT4: every cell of the
+   dictionary in order, geometry replaced in place): for every well-founded
+   table it terminates, every cell ends complement-free, and each new geometry
+   holds exactly where the old one (hence the MCNP cell) does *)
+Theorem C11_eliminate_all_den : forall (tbl : table) rk, table_ok (lookup tbl) rk ->
+  exists F tbl', (forall f, F <= f -> eliminate_all f tbl = Ok tbl') /\
+    forall n c, lookup tbl n = Some c ->
+      exists c', lookup tbl' n = Some c' /\ a_plain (c_geom c') = true /\
+        forall sg cd, cells_meaning (lookup tbl) sg cd ->
+          aden cd sg (c_geom c') = aden cd sg (c_geom c).
+Proof. exact eliminate_all_den. Qed.
+Print Assumptions C11_eliminate_all_den.
 
 Theorem C11_pot_complement_lattice_empty : forall cells n c z sub f,
   cells n = Some c -> c_lattice c = true -> first_surface (c_geom c) = Some (ASurf z sub) -> z <> 0%Z ->
